@@ -133,6 +133,21 @@ def check(prog, run):
     run.rule("R-perm-split", "PreGER reference/roving split takes the reference channels in the listed order and does not modify the index lists", 3)
     from .. import seqsig
     seqsig.order_obligations(prog, run, "R-perm-split", which=("pre", "reflists", "split_current"))
+    # time-unit clause for the FDD family: the bandwidths of a request are quantities in Hz - declared at k*fs the user passes k*DF, which
+    # must be the value the extraction works with (not the default, not the value stored by an earlier request).  The hand-over rules of
+    # C06 / C07, restricted to the arguments that carry a unit.
+    run.rule("R-band-arg", "FDD / EFDD / FSDD mpe and mpe_from_plot hand the half-widths of THIS request (DF; DF1, DF2) and its selected frequencies to the extraction routine", 6)
+    from .C07 import handover_rule as efdd_handover
+    efdd_handover(prog, run.under({"R-handover": "R-band-arg"}), only=("DF1", "DF2", "sel_freq"))
+    fdd_mpe = prog.func("functions.fdd.FDD_mpe")
+    pos_ = astq.params_of(fdd_mpe.node)[0]
+    for mname in ("mpe", "mpe_from_plot"):
+        for ci, m in prog.class_methods("pyoma2.algorithms", mname):
+            want = {pos_[4]: {"DF"}}
+            if mname == "mpe":
+                want[pos_[3]] = {"sel_freq"}
+            for c, p_, ok, detail in astq.handover(prog, m, fdd_mpe.qual, want):
+                run.ob("R-band-arg", m.qual, f"{mname} -> FDD_mpe.{p_}", ok, detail, witness=detail[:90], file=rel(prog.mods[m.mod].path), node=c, config=p_)
 
 
 def unit_norm(prog, run):
